@@ -17,11 +17,45 @@ _cache = {}
 
 # private functions some rule anchors on by name: inlining them away would leave that rule without its anchor
 VOCABULARY = {'crdts::identifier::rational_between', 'crdts::merkle_reg::MerkleReg::all_hashes_seen'}
-PLUMBING_TRAITS = {'Extend', 'FromIterator', 'AsRef', 'AsMut', 'Borrow', 'BorrowMut', 'Deref', 'DerefMut', 'Index', 'IndexMut', 'From'}
+PLUMBING_TRAITS = {'Extend', 'FromIterator', 'IntoIterator', 'AsRef', 'AsMut', 'Borrow', 'BorrowMut', 'Deref', 'DerefMut', 'Index', 'IndexMut', 'From'}
+
+
+def _into_as_from(facts, c):
+    """`x.into()` with a crate-local target type U and a crate-local `impl From<T> for U`: that `from` (the blanket
+    `impl<T, U: From<T>> Into<U> for T` does nothing but call it)."""
+    if c.get('name') != 'into' or c.get('trait') != 'std::convert::Into':
+        return None
+    subs = c.get('substs') or []
+    if len(subs) < 2 or subs[1].get('k') != 'adt' or not str(subs[1].get('path', '')).startswith('crdts::'):
+        return None
+    cands = []
+    for b in facts.bodies:
+        if b.name == 'from' and (b.impl_trait or '').endswith('convert::From') and b.impl_self == subs[1]['path'] and not b.derived and b.arg_count == 1:
+            pty = b.locals[1]['ty'] if len(b.locals) > 1 else {}
+            if pty.get('k') == subs[0].get('k') and pty.get('path') == subs[0].get('path') and (pty.get('k') == 'adt' or pty.get('s') == subs[0].get('s')):
+                cands.append(b)
+    return cands[0] if len(cands) == 1 else None
+
+
+def _collect_as_from_iter(facts, c):
+    """`it.collect::<U>()` with a crate-local U: the crate's own `impl FromIterator<_> for U` (`Iterator::collect` only calls it)."""
+    if c.get('name') != 'collect' or c.get('trait') != 'std::iter::Iterator':
+        return None
+    subs = c.get('substs') or []
+    tgt = [x for x in subs[1:] if x.get('k') == 'adt' and str(x.get('path', '')).startswith('crdts::')]
+    if len(tgt) != 1:
+        return None
+    cands = [b for b in facts.bodies if b.name == 'from_iter' and (b.impl_trait or '').endswith('FromIterator') and b.impl_self == tgt[0]['path']
+             and not b.derived and b.arg_count == 1]
+    return cands[0] if len(cands) == 1 else None
 
 
 def _callee_body(facts, t, same_type=None):
     c = t.get('callee')
+    if c:
+        via = _into_as_from(facts, c) or _collect_as_from_iter(facts, c)
+        if via is not None:
+            return via
     if not c or not (c.get('local') or str(c.get('resolved') or '').startswith(('crdts::', '<crdts::'))
                      or str(c.get('resolved_uid') or '').startswith('crdts::')):
         return None
@@ -265,6 +299,9 @@ def unroll_array_loops(blocks, locals_, max_len=4):
                 and len(ds[0][2]['args']) == 1 and ds[0][2].get('target') is not None:
             once_call = ds[0]       # `iter::once(x)`: exactly one item, x
             ops = [ds[0][2]['args'][0]]
+        elif len(ds) == 1 and ds[0][1] == 'stmt' and ds[0][2]['rv'].get('k') == 'agg' and ds[0][2]['rv'].get('path') == OPT \
+                and ds[0][2]['rv'].get('variant') == 'Some' and c.get('name') == 'into_iter':
+            ops = ds[0][2]['rv']['ops']        # `for x in Some(v)`: exactly one item, v
         elif len(ds) != 1 or ds[0][1] != 'stmt' or ds[0][2]['rv'].get('k') != 'agg' or ds[0][2]['rv'].get('agg') != 'array':
             continue
         else:
@@ -864,6 +901,16 @@ def _extend_with_option(blocks, locals_, blk, t):
     if one is None or a1.get('k') not in ('move', 'copy') or a1['place']['proj']:
         return False
     oty = locals_[a1['place']['local']]['ty']
+    src_l = a1['place']['local']
+    for _ in range(4):      # an argument of an inlined generic helper has the helper's type parameter as its type: look where it came from
+        if oty.get('k') == 'adt':
+            break
+        ds = _defs_of(blocks, src_l)
+        if len(ds) == 1 and ds[0][1] == 'stmt' and ds[0][2]['rv'].get('k') == 'use' and _plain_local(ds[0][2]['rv']['op']) is not None:
+            src_l = _plain_local(ds[0][2]['rv']['op'])
+            oty = locals_[src_l]['ty']
+        else:
+            break
     if oty.get('k') != 'adt' or oty.get('path') != OPT or not oty.get('args'):
         return False
     item = oty['args'][0]
